@@ -812,15 +812,30 @@ def gen(rng, tier):
       for k in range(n_axis):
         scs.append(axis_history(rng, cls, k))
     scs.extend(shared_pairs(rng))
+    # ---- I. NON-ASCENDING lists (the order of the (axis, elements) pairs is free), non-negative / negative /
+    # mixed signs, list and int elements_per_scale, rank 2-4, all routes, tensor / numpy / variable inputs
+    for a in ("auto", "auto_po2"):
+      for sa, eps, sh in (([1, 0], [2, 2], [4, 4]), ([-1, 0], [4, 2], [4, 4]), ([-1, -2], [2, 4], [4, 8]),
+                          ([2, 0], [4, 2], [4, 2, 8]), ([2, 0], 2, [2, 4, 4]), ([-1, 1], [2, 4], [2, 4, 8]),
+                          ([2, 0], [2, 1], [2, 4, 2, 4]), ([2, 0], 2, [4, 1, 2, 4]), ([3, -3, 0], [2, 1, 2], [2, 2, 4, 4]),
+                          ([-1, 0], [1, 1], [4, 4]), ([2, 1, 0], 2, [2, 4, 4])):
+        x = A.exact_tensor(rng, sh, ["plain", "sparse", "zero_channel"][int(rng.integers(0, 3))])
+        scs.append(scenario("axis-forms", "binary", bin_attrs(a, bool(rng.random() < 0.3), sa, eps),
+                            [call(rng, x)], rng,
+                            route=["ctor_kw", "ctor_pos", "dict", "from_config", "registry", "string", "attr"][int(rng.integers(0, 7))]))
   return scs
 
 
 # scale_axis / elements_per_scale spellings that are valid for EVERY rank >= 2 (entries within [-2, 1]); with
-# elements_per_scale only spellings whose normalised axes are distinct AND ascending for every rank >= 2 (the
-# unrolling of `_get_unrolled_shape` shifts the later axes by one per unrolled axis, i.e. it presumes ascending
-# axes: `scale_axis=[1, 0], elements_per_scale=[2, 2]` raises on the unchanged code — see notes, not generated)
+# elements_per_scale only spellings whose normalised axes are distinct for every rank >= 2.  The ORDER of the list
+# is free (fix round N; `scale_axis=[1, 0], elements_per_scale=[2, 2]` used to raise `Incompatible shapes`: the
+# unrolling of `_get_unrolled_shape` shifts the later axes by one per unrolled axis, i.e. needs ascending axes,
+# and `_validate_axis_and_eps` now hands the pairs over sorted): the second line of AXES_EPS holds the
+# non-ascending and mixed-sign spellings (appended, so that the indices used by `shared_pairs` stay).
 AXES_PLAIN = [[-1], [0, -1], [-2], [-1, -2], [-2, 0], [1, -1], -1, -2, [0], [1], [0, 1], [-1, 0]]
-AXES_EPS = [([-1], [2]), ([-1], 2), (-1, 2), ([0, -1], [1, 2]), ([-2, -1], 2), ([-2, -1], [2, 1]), ([0], [2]), (-2, 2)]
+AXES_EPS = [([-1], [2]), ([-1], 2), (-1, 2), ([0, -1], [1, 2]), ([-2, -1], 2), ([-2, -1], [2, 1]), ([0], [2]), (-2, 2),
+            ([1, 0], [2, 1]), ([1, 0], 2), ([-1, 0], [2, 2]), ([-1, 0], [1, 2]), ([-1, -2], [1, 2]), ([-1, -2], 2),
+            ([1, 0], [1, 1]), ([-1, 0], 2)]
 
 
 def axis_shapes(rng, n_calls, with_eps, max_elems=64):
@@ -1045,10 +1060,16 @@ def same_error(model_kind, impl_kind):
 
 
 def why_raises(sc, rec):
-  """an independent reading of why a documented-valid configuration raised.  The three named reasons are
+  """an independent reading of why a documented-valid configuration raised.  The four named reasons are
   defects that have been REPAIRED (known/C04.json `fixed`): no recorded finding matches them any more, the
   name only says which old defect is back."""
   a = rec["attrs"]
+  if BASE[sc["cls"]] == "binary" and isinstance(rec["ca"]["alpha"], str) and isinstance(a["sa"], list) \
+      and a["eps"] is not None and len(rec["x"].shape) > 1:
+    r = len(rec["x"].shape)
+    norm = [v + r if v < 0 else v for v in a["sa"]]
+    if norm != sorted(norm):
+      return "non-ascending-scale-axis-list"
   if BASE[sc["cls"]] == "binary" and isinstance(rec["ca"]["alpha"], str) and a["eps"] is not None \
       and rec["xin"] == "numpy" and len(rec["x"].shape) > 1:
     return "numpy-input-elements-per-scale"
